@@ -24,6 +24,7 @@ var (
 func checkC17(c *chk.Ctx) {
 	h := newH(c)
 	c.Decided = []string{
+		"R17j the notification names the same record key as the batch write, on every path of the put",
 		"R17i the reader scans from the resume offset to the END of the notification key space: the upper bound does not depend on the start offset (stored batches have holes: trimmed prefixes, periods with notifications disabled)",
 		"R17a the notification batch of a request is written into the request's own write batch before the commit and carries the request's offset (shared with C07)",
 		"R17b every insertion into a notification batch is guarded by the internal-key-prefix test of the inserted key",
@@ -48,6 +49,7 @@ func checkC17(c *chk.Ctx) {
 	ruleR17g(h)
 	ruleR17h(h)
 	ruleR17i(h)
+	ruleRecordKeyAgreement(h, "R17j")
 }
 
 func ruleR17aOffset(h *H) {
